@@ -161,6 +161,10 @@ pub struct KbArgs {
     pub aud: String,
     pub nonce: String,
     pub key: HolderKey,
+    /// pass `sign_alg = None` (the library's default, ES256) instead of naming the algorithm;
+    /// only meaningful with an EC holder key
+    #[serde(default)]
+    pub default_alg: bool,
 }
 
 pub fn new_holder(sd_jwt: &str, fmt: Fmt) -> Out<SDJWTHolder> {
@@ -174,7 +178,7 @@ pub fn present_with(holder: &mut SDJWTHolder, selection: &Map<String, Value>, kb
                 Some(k.nonce.clone()),
                 Some(k.aud.clone()),
                 k.key.enc(),
-                k.key.alg().map(|a| a.name().to_string()),
+                if k.default_alg && k.key.alg() == Some(Alg::ES256) { None } else { k.key.alg().map(|a| a.name().to_string()) },
             ),
             None => (None, None, None, None),
         };
